@@ -92,6 +92,11 @@ class Hook:
 
         def pre():
             os.dup2(w, 3)
+            # a hostile input (char[4294967296]) makes the generators build multi-gigabyte strings:
+            # bound the address space so that the process dies instead of the machine
+            import resource
+            lim = int(os.environ.get("VERIF_HOOK_MEM", str(6 << 30)))
+            resource.setrlimit(resource.RLIMIT_AS, (lim, lim))
 
         self.proc = subprocess.Popen([os.path.join(BUILD, "verifhook")], stdin=subprocess.PIPE, stdout=subprocess.DEVNULL,
                                      stderr=subprocess.DEVNULL, preexec_fn=pre, close_fds=False, env=env)
@@ -104,8 +109,16 @@ class Hook:
         try:
             self.proc.stdin.write((json.dumps(req) + "\n").encode())
             self.proc.stdin.flush()
-            line = self.resp.readline()
-        except (BrokenPipeError, OSError):
+            import select
+            r, _, _ = select.select([self.resp], [], [], float(os.environ.get("VERIF_HOOK_TIMEOUT", "60")))
+            if not r:
+                line = ""
+                self.timeouts = getattr(self, "timeouts", 0) + 1
+            else:
+                line = self.resp.readline(1 << 28)
+                if len(line) >= (1 << 28) - 1 and not line.endswith("\n"):
+                    line = ""              # an absurdly large answer: treat as a crash of the request
+        except (BrokenPipeError, OSError, MemoryError):
             line = ""
         if not line:
             # the process died (fatal error such as a stack overflow cannot be recovered)
